@@ -26,15 +26,17 @@ ASSUMPTIONS = [
     "not constrained; quiescence is judged after the longest timer plus the stall length",
 ]
 
-LIFE = ["connecting", "await-cea", "open-idle", "open-inbound", "open-outbound", "open-consumer", "closing"]
+LIFE = ["connecting", "await-cea", "open-idle", "open-inbound", "open-outbound", "open-consumer", "open-sender", "closing"]
 CAUSES = {
     "connecting": ["refuse"],
-    "await-cea": ["eof", "non-cea"],
-    "open-idle": ["close", "dpr", "eof"],
+    "await-cea": ["eof", "rst", "non-cea"],
+    "open-idle": ["close", "dpr", "eof", "rst"],
     "open-inbound": ["close", "dpr", "eof"],
-    "open-outbound": ["close", "dpr", "eof"],
-    "open-consumer": ["close", "dpr", "eof"],
-    "closing": ["dpa", "eof"],
+    "open-outbound": ["close", "dpr", "eof", "rst"],
+    "open-consumer": ["close", "dpr", "eof", "rst"],
+    # an application thread keeps submitting messages while the connection ends
+    "open-sender": ["close", "dpr", "eof", "rst"],
+    "closing": ["dpa", "eof", "rst"],
 }
 
 
@@ -109,14 +111,35 @@ class Termination(explore.Scenario):
 
         # ---- the termination cause, under exploration -------------------------------------------------------
         rt.begin_exploration()
+        sender = None
+        sender_out = {}
         if life == "open-outbound":
             from checks.c05 import make_message
             d.send_messages([make_message(1, 0), make_message(1, 1)])
+        elif life == "open-sender":
+            from checks.c05 import make_message
+
+            def submit():
+                import bromelia.exceptions as X
+                for i in range(3):
+                    try:
+                        d.send_message(make_message(2, i))
+                    except BaseException as e:  # noqa
+                        if isinstance(e, shims.sched.Abort):
+                            raise
+                        if type(e).__module__ != X.__name__:
+                            sender_out["leak"] = f"{type(e).__name__}: {e}"
+                    n.tm.sleep(0.25)
+                sender_out["returned"] = True
+            sender = T(target=submit, name="app-sender")
+            sender.start()
         try:
             if cause == "refuse":
                 n.peer.refuse()
             elif cause == "eof":
                 n.peer.close()
+            elif cause == "rst":
+                n.peer.close(reset=True)
             elif cause == "non-cea":
                 n.peer.send(node.dwr(5, 6))
             elif cause == "close":
@@ -141,7 +164,7 @@ class Termination(explore.Scenario):
         n.settle(rt.stall_time + 5.0)
         a = assoc1
         lib_alive = [f"{t.name}@{t.wait_label}" for t in rt.threads
-                     if t.library and t.state != "done" and not t.name.startswith("app-consumer")]
+                     if t.library and t.state != "done" and not t.name.startswith(("app-consumer", "app-sender"))]
         socks = [s for s in rt.net.sockets]
         obs["after"] = {
             "state": n.state(),
@@ -151,6 +174,8 @@ class Termination(explore.Scenario):
             "locks": rt.stuck_locks(),
             "consumer_returned": consumer_out.get("returned") if consumer is not None else None,
             "transport_released": (a.transport is None) if a is not None else None,
+            "sender_returned": sender_out.get("returned") if sender is not None else None,
+            "sender_leak": sender_out.get("leak"),
         }
         # ---- restart on the same object ---------------------------------------------------------------------------
         if obs["after"]["state"] == "Closed" and not lib_alive:
@@ -194,6 +219,11 @@ class Termination(explore.Scenario):
             errs.append((f"C08:lock-held:{shape}", f"locks still held: {after['locks']}"))
         if after["consumer_returned"] is False or (P["life"] == "open-consumer" and not after["consumer_returned"]):
             errs.append((f"C08:consumer-still-blocked:{shape}", "the application thread blocked in get_message() did not return"))
+        if after.get("sender_returned") is not None and not after["sender_returned"]:
+            errs.append((f"C08:sender-still-blocked:{shape}", "the application thread submitting messages did not return"))
+        if after.get("sender_leak"):
+            errs.append((f"C08:sender-got-{after['sender_leak'].split(':')[0]}:{shape}",
+                         f"send_message() raised a non-library error while the connection ended: {after['sender_leak']}"))
         if not errs and obs.get("restart") != "open":
             errs.append((f"C08:not-restartable:{shape}", f"second start() on the same object: {obs.get('restart')}"))
         # threads that end by an exception during the shutdown race (selector.modify after unregister, recv on the
@@ -217,7 +247,8 @@ def all_cases():
 
 def plan(tier):
     deep = {("client", "open-idle", "close"), ("server", "open-consumer", "eof"), ("server", "open-idle", "dpr"),
-            ("client", "open-outbound", "close"), ("client", "await-cea", "eof"), ("server", "closing", "eof")}
+            ("client", "open-outbound", "close"), ("client", "await-cea", "eof"), ("server", "closing", "eof"),
+            ("client", "open-sender", "close"), ("server", "open-sender", "eof"), ("server", "open-outbound", "rst")}
     for p in all_cases():
         key = (p["role"], p["life"], p["cause"])
         if tier == "quick":
